@@ -13,7 +13,7 @@ MCDirtyQ    == {"modified", "staged", "untracked", "deleted"}
 
 MCNoBump == {}
 MCBranchQ == {<<"v3", "branch">>, <<"v4", "branch">>, <<"v3", "current">>, <<"v4", "remote">>, <<"v3.1.0", "branch">>}
-MCBranchT == {<<"v3", "branch">>, <<"v4", "current">>, <<"v3", "remote">>, <<"v4", "branch">>, <<"v3.1.0", "branch">>}
+MCBranchT == {<<"v3", "branch">>, <<"v4", "current">>, <<"v3", "remote">>}
 MCTreeQ == {"v3.1.0"}
 MCTreeT == {"v3.1.0", "v3"}
 \* simulated long histories: few names so that invocations meet tags that matter
